@@ -22,12 +22,14 @@ class RealLifecycle:
         import logging
         logging.disable(logging.CRITICAL)
         from ..harness import prog
-        self.opts = {'mode': 'tcp', 'keepalive_ms': PERIOD_MS, 'lifetime_ms': 600000, 'read_buffer': 1024}
+        self.opts = {'mode': 'tcp', 'keepalive_ms': PERIOD_MS, 'lifetime_ms': 600000, 'read_buffer': 1024, 'frag': 64}
         self.ex = prog.Exec(dict(self.opts))
         self.steps = []
         self._do(['start'])
         self._do(['pump'])
         self.sent = 0            # requests made (probes and requests the peer leaves unanswered)
+        self.fnfs = 0            # fire-and-forget calls
+        self.blocked = False
 
     def _do(self, st):
         self.steps.append(st)
@@ -40,6 +42,14 @@ class RealLifecycle:
         elif a == 'pend':
             self.sent += 1
             self._do(['rr', 'c', [9, self.sent], {'mode': 'later'}])
+        elif a == 'fnf':
+            self.fnfs += 1
+            # (a payload of several fragments; with the transport blocked 0..2 of them get through before whatever happens next)
+            self._do(['fnf', 'c', [[200, 0], [230, 20], [0, 190]][self.fnfs % 3] if self.blocked else [[200, 0], [10, 5], [0, 150]][self.fnfs % 3]])
+            if self.blocked:
+                self._do(['settle'])
+                self._do(['gate', 'c', self.fnfs % 3])
+                self._do(['settle'])
         elif a == 'cut':
             self._do(['cut', 's', 'eof'])
         elif a == 'cuterr':
@@ -64,6 +74,17 @@ class RealLifecycle:
             self._call('reconnect')
         elif name == 'Close':
             self._call('close')
+        elif name == 'Fnf':
+            self._call('fnf')
+            if self.blocked:
+                return
+        elif name == 'Block':
+            self._do(['gate_close', 'c'])
+            self.blocked = True
+            return
+        elif name == 'Unblock':
+            self._do(['gate_open', 'c'])
+            self.blocked = False
         elif name == 'Tick':
             self._do(['advance', PERIOD_MS + 10])
         elif name == 'Race':
@@ -77,10 +98,12 @@ class RealLifecycle:
                 self._call(a)
         else:
             raise common.Machinery('unknown Lifecycle action %r' % name)
+        if name in ('Cut', 'CutErr', 'Reconnect', 'Close', 'Race'):
+            self.blocked = False        # (the connection the blocked transport belonged to is gone)
         self._do(['pump'])
 
     def observe(self):
-        o = {'gen': 0, 'closeCbs': 0, 'tclosed': 0, 'answered': 0}
+        o = {'gen': 0, 'closeCbs': 0, 'tclosed': 0, 'answered': 0, 'fnfDone': 0}
         for e in self.ex.w.rec.events:
             if e['ep'] != 'c':
                 continue
@@ -92,7 +115,10 @@ class RealLifecycle:
                 o['tclosed'] += 1
             elif e['ev'] == 'cb_future':
                 o['answered'] += 1
+            elif e['ev'] == 'cb_sent':
+                o['fnfDone'] += 1
         o['waiting'] = self.sent - o['answered']
+        o['fnfWaiting'] = self.fnfs - o['fnfDone']
         return o
 
     def close(self):
@@ -111,6 +137,8 @@ def _state(vs):
     k = tlc.parse_value(vs['k'])
     d = {key: k[key] for key in ('gen', 'closeCbs', 'tclosed', 'answered', 'hung', 'pending', 'up', 'appClosed')}
     d['waiting'] = k['hung'] + k['pending']
+    d['fnfDone'] = k['fnfDone']
+    d['fnfWaiting'] = k['unsent'] + k['fnfHung']
     return d
 
 
@@ -124,19 +152,19 @@ def _compare(real, exp, obs):
     # oracle on the real observations alone (C11): never more close notifications than connections
     if o['closeCbs'] > o['gen']:
         return ('C11.on_close_exactly_once', '%d on_close callbacks for %d connection(s)' % (o['closeCbs'], o['gen']))
-    for key in ('gen', 'closeCbs', 'tclosed', 'answered', 'waiting'):
+    for key in ('gen', 'closeCbs', 'tclosed', 'answered', 'waiting', 'fnfDone', 'fnfWaiting'):
         if o[key] != exp[key]:
             return ('DRIFT', '%s is %s, the specification says %s' % (key, o[key], exp[key]))
     return None
 
 
-def check(v, props, quick_cfg):
+def check(v, props, quick_cfg, wide='Lifecycle_wide.cfg', label='lifecycle'):
     """props: clause prefixes that count as violations of the calling property (e.g. ('C17.', 'C11.')); quick_cfg: the configuration
     of the quick tier (races that start with reconnect() for C17, with close() for C11; the thorough tier has both, two races deep)"""
     del _TRACES[:]
     thorough = common.tier() == 'thorough'
-    cfg = 'Lifecycle_wide.cfg' if thorough else quick_cfg
-    r = tlc.run('Lifecycle', cfg, workers=2, timeout=900, name='lifecycle')
+    cfg = wide if thorough else quick_cfg
+    r = tlc.run('Lifecycle', cfg, workers=2, timeout=900, name=label)
     if r.timed_out or not r.finished:
         raise common.Machinery('TLC did not finish on Lifecycle/%s: %s' % (cfg, r.out[-1500:]))
     if r.violated:
@@ -145,9 +173,9 @@ def check(v, props, quick_cfg):
     v.add('transitions', r.generated)
     v.coverage.setdefault('mc_configs', {})[cfg] = {'states': r.distinct, 'transitions': r.generated, 'depth': r.depth, 'wall_s': round(r.wall, 1)}
     desc = lambda s: 'gen=%d up=%s closed=%s on_close=%d answered=%d waiting=%d' % (s['gen'], s['up'], s['appClosed'], s['closeCbs'], s['answered'], s['waiting'])
-    graphreplay.replay(v, 'Lifecycle', cfg, RealLifecycle, _apply, _compare, _state, prop=props[0].rstrip('.'), label='lifecycle', describe=desc,
+    graphreplay.replay(v, 'Lifecycle', cfg, RealLifecycle, _apply, _compare, _state, prop=props[0].rstrip('.'), label=label, describe=desc,
                        nondet=True)
-    _validate_paths(v, props, 'Lifecycle', 'lifecycle')
+    _validate_paths(v, props, 'Lifecycle', label)
 
 
 def _validate_paths(v, props, model, label):
